@@ -52,6 +52,8 @@ def configs(quick):
     c.append(dict(name="screening_seeded", dev="ring", lam=0.5, screening=True, seeded=True, adaptive=False, T=0.04))
     # a mesh with more than a thousand sites (anything done in blocks or pools only above a size threshold), short run
     c.append(dict(name="large_mesh", dev="ring", mel=0.16, adaptive=False, dt=1e-3, T=0.004))
+    # progress reports on (they measure wall-clock time), ramped field: only what is printed may depend on the clock
+    c.append(dict(name="progress_reports_ramped_field", dev="bar", current=2.0, timedep=True, adaptive=True, T=0.12, progress=3))
     # a run shorter than the save interval (only the first and the last state are kept): the per-step record buffer is
     # never filled, so nothing may be read from its unused tail
     c.append(dict(name="shorter_than_save_interval", dev="bar", current=2.0, adaptive=True, T=0.2, save_every=1000))
@@ -59,7 +61,7 @@ def configs(quick):
         c += [dict(name="timedep_current_adaptive", dev="bar_hole", timedep_current=True, adaptive=True, T=0.2),
               dict(name="screening_fixed", dev="union", lam=0.5, screening=True, adaptive=False, T=0.06),
               # a mesh with more than a thousand sites: the screening kernel must not split its sums by thread count
-              dict(name="screening_large_mesh", dev="ring", mel=0.17, lam=0.5, screening=True, adaptive=False, T=0.02)]
+              dict(name="screening_large_mesh", dev="ring", mel=0.17, lam=0.5, screening=True, adaptive=False, dt=5e-4, T=0.004)]
     return c
 
 
